@@ -19,6 +19,17 @@ CLAIMED = {
         design="§4 C15"),
 }
 
+CLAIMED["C02"] = dict(
+    technique="Kani contracts on size functions, header writers, default writers, opcode-enum readers and expect helpers (full header domains); Verus induction lemma for stream concatenation",
+    text="Proof: for every expressible body length and opcode the real *_size()/header-writer pair produces exactly the specified header and header+body==size "
+         "(all six version x direction pairs, the Wrath 2/3-byte switch included); every sync reader entry point consumes exactly header_len+announced body bytes and hands "
+         "(opcode, body length, whole body) on, for every possible header (all 2^48 byte patterns); a Verus lemma lifts the per-message contracts to arbitrary concatenations. "
+         "The default-writer glue is additionally executed for bodies of 0..=8 bytes (bounded stand-in, reported separately).",
+    note="Trusted: Kani/CBMC, Verus/Z3, the framing spec in contracts/kani/framing_spec.rs, std Vec/io as compiled by Kani. Assumed: the per-opcode dispatcher read_opcodes is stubbed "
+         "(its behaviour is C01/C04); per-container `size()==bytes written` comes from the C01 container contracts; compressed-message writer overrides (zlib) and the tokio/async-std copies are not under contract. "
+         "Known findings (open): u16 overflow of server_size/client_size for the two largest expressible body lengths.",
+    design="§4 C02")
+
 NA = {
     "C06": "quantifies over delivery schedules of async readers; neither verifier handles async state machines within reach (Kani+tokio: no result in 10 min for a 4-byte message) and the chunking behaviour is a contract of tokio/async-std, not of this code",
     "C07": "a statement about every input program of a text-emitting generator; no function contract can refer to the meaning of the emitted Rust text (compiler verification); the corpus instance is C01",
